@@ -470,7 +470,7 @@ def plan(tier, seed):
     shards = [{'kind': 'directed', 'part': 0, 'parts': 2}, {'kind': 'directed', 'part': 1, 'parts': 2}]
     if tier == 'quick':
         for i in range(10):
-            shards.append({'kind': 'hist', 'part': i, 'n': 400})
+            shards.append({'kind': 'hist', 'part': i, 'n': 300})
     else:
         for i in range(32):
             shards.append({'kind': 'hist', 'part': i, 'n': 2500})
